@@ -43,9 +43,9 @@ def mp_tasks(tier):
         for np_ in (False, True):
             T.append(('sx.mpinst', 'sym_primitives', (m, t, np_)))
             seeds = list(range(1, 4 if tier == 'quick' else 13))
-            T.append(('sx.mpinst', 'concrete_program', (m, t, np_, 'int_ops', 6, 4, seeds)))
+            T.append(('sx.mpinst', 'concrete_program', (m, t, np_, 'int_ops', 6, 30, seeds)))
             if tier != 'quick':
-                T.append(('sx.mpinst', 'concrete_program', (m, t, np_, 'int_ops', 9, 8, seeds[:6])))
+                T.append(('sx.mpinst', 'concrete_program', (m, t, np_, 'int_ops', 16, 30, seeds[:6])))
     return T
 
 
@@ -66,7 +66,7 @@ def run(tier, seed):
                   'forms decide degree-t sharings exactly), plus concrete m-party runs of all operations with ghost checks of every output/_reshare call. '
                   'Bounded in l, k, (m,t), list length; complete over values inside each instance.',
                   assumptions=['contract stubs of random_bits / is_zero_public in value mode (each verified separately in mp mode / by enumeration)',
-                               'event r = 0 of the multiplicative blinding in is_zero_public excluded (documented "with high probability")',
+                               'event r = 0 of the multiplicative blinding in is_zero_public excluded (documented "with high probability"); concrete m-party runs use k = 30 so that this event has probability < 2^-36 per call (with k = 4 it was observed once in ~600 calls and is not a defect)',
                                'rejection-sampling loops explored up to 2 retries', 'Python int = mathematical integer',
                                'PRF outputs are arbitrary values in range(bound), equal for equal (key, bound, input)',
                                'mp mode: one event loop, one schedule; schedules are not enumerated (C08 is not claimed)'],
